@@ -1121,6 +1121,53 @@ impl<'tcx> Cx<'tcx> {
         if let Some(rc) = tcx.get_diagnostic_item(rustc_span::sym::RefCell) {
             control_walks.push(self.walk_root(rc));
         }
+        // R19.3 support: for T in {f32, f64}, the body of every <T as num_traits::Float>::method and of the
+        // core::ops arithmetic impls it is built on, so the rules can check that the trait forwards to the
+        // primitive of the same name (inherent f32/f64 method or built-in operator).
+        let mut float_impls = Vec::new();
+        {
+            let float_trait = tcx
+                .all_traits_including_private()
+                .find(|d| tcx.crate_name(d.krate).as_str() == "num_traits" && tcx.item_name(*d).as_str() == "Float"
+                    && !tcx.def_path_str(*d).contains("FloatCore"));
+            if std::env::var("EXMEX_FACTS_DEBUG").is_ok() {
+                for d in tcx.all_traits_including_private() {
+                    if tcx.crate_name(d.krate).as_str() == "num_traits" { eprintln!("trait {}", tcx.def_path_str(d)); }
+                }
+            }
+            if let Some(ft) = float_trait {
+                for (tyname, fty) in [("f32", tcx.types.f32), ("f64", tcx.types.f64)] {
+                    for m in tcx.associated_item_def_ids(ft) {
+                        if !matches!(tcx.def_kind(*m), DefKind::AssocFn) {
+                            continue;
+                        }
+                        let args = tcx.mk_args(&[fty.into()]);
+                        let inst = ty::Instance::try_resolve(tcx, TypingEnv::fully_monomorphized(), *m, args);
+                        if std::env::var("EXMEX_FACTS_DEBUG").is_ok() {
+                            eprintln!("resolve {} for {} -> {:?}", tcx.def_path_str(*m), tyname, inst.as_ref().map(|o| o.map(|i| (tcx.def_path_str(i.def_id()), tcx.is_mir_available(i.def_id())))));
+                        }
+                        if let Ok(Some(inst)) = inst {
+                            let idid = inst.def_id();
+                            if !tcx.is_mir_available(idid) {
+                                continue;
+                            }
+                            let body = tcx.instance_mir(inst.def);
+                            let mut blocks = Vec::new();
+                            for (_, bb) in body.basic_blocks.iter_enumerated() {
+                                blocks.push(self.block(idid, body, bb));
+                            }
+                            float_impls.push(obj(vec![
+                                ("ty", s(tyname)),
+                                ("method", s(tcx.item_name(*m).to_string())),
+                                ("impl_path", s(tcx.def_path_str(idid))),
+                                ("arg_count", n(body.arg_count as i128)),
+                                ("blocks", J::Arr(blocks)),
+                            ]));
+                        }
+                    }
+                }
+            }
+        }
         // ADT table: local + seen external
         let mut adts = Vec::new();
         let mut all: HashSet<DefId> = self.adts_seen.clone();
@@ -1169,6 +1216,7 @@ impl<'tcx> Cx<'tcx> {
             ("type_walks", J::Arr(walks)),
             ("static_walks", J::Arr(static_walks)),
             ("control_walks", J::Arr(control_walks)),
+            ("float_impls", J::Arr(float_impls)),
             (
                 "externs",
                 J::Obj(std::mem::take(&mut self.externs).into_iter().collect()),
